@@ -7,12 +7,18 @@ import GSV.Model.Transform
 import Mathlib.Algebra.BigOperators.Group.List.Basic
 import Mathlib.Algebra.Order.BigOperators.Group.List
 import Mathlib.Data.List.Sort
+import Mathlib.MeasureTheory.Measure.Real
+import Mathlib.MeasureTheory.Constructions.BorelSpace.Order
+import Mathlib.Analysis.SpecialFunctions.Log.Basic
+import Mathlib.Analysis.SpecialFunctions.Trigonometric.Inverse
+import Mathlib.Analysis.SpecialFunctions.Pow.Real
+import Mathlib.Tactic.Positivity
 import Mathlib.Tactic.NormNum.OfScientific
 import Mathlib.Tactic.Ring
 import Mathlib.Tactic.FieldSimp
 import Mathlib.Tactic.Linarith
 namespace GSV.Lemmas.Transform
-open GSV GSV.Transc GSV.Model.Transform
+open GSV GSV.Transc GSV.Model.Transform MeasureTheory
 
 /-! ### the decimal literals of the model at `ℝ` -/
 
@@ -251,6 +257,445 @@ theorem classify_spec (vals thr : List ℝ) (hlen : vals.length = thr.length + 1
       have e2 := hit i' hi' ha' hb' none
       rw [e1] at e2
       exact Option.some.inj e2
+
+
+
+/-! ### the quantile functions `_uniform_to_arcsin`, `_uniform_to_uquad` -/
+
+theorem uniformToArcsin_eq (a b u : ℝ) :
+    uniformToArcsin a b u = (b - a) * Real.sin (Real.pi / 2 * u) ^ 2 + a := by
+  simp only [uniformToArcsin, npow_real, sin_real, pi_real, lit05]
+  congr 3; ring_nf
+
+theorem uniformToArcsin_mem_Ioo {a b u : ℝ} (hab : a < b) (hu0 : 0 < u) (hu1 : u < 1) :
+    a < uniformToArcsin a b u ∧ uniformToArcsin a b u ≤ b := by
+  rw [uniformToArcsin_eq]
+  have hθ0 : 0 < Real.pi / 2 * u := by positivity
+  have hθ1 : Real.pi / 2 * u < Real.pi := by nlinarith [Real.pi_pos]
+  have hs := Real.sin_pos_of_pos_of_lt_pi hθ0 hθ1
+  have hs1 := Real.sin_le_one (Real.pi / 2 * u)
+  constructor
+  · nlinarith [pow_pos hs 2, sub_pos.mpr hab]
+  · have : Real.sin (Real.pi / 2 * u) ^ 2 ≤ 1 := by nlinarith
+    nlinarith [sub_pos.mpr hab]
+
+theorem uniformToArcsin_le_iff {a b u y : ℝ} (hab : a < b) (hu0 : 0 < u) (hu1 : u < 1) (hy0 : a < y) (hy1 : y < b) :
+    uniformToArcsin a b u ≤ y ↔ u ≤ 2 / Real.pi * Real.arcsin (Real.sqrt ((y - a) / (b - a))) := by
+  rw [uniformToArcsin_eq]
+  have hba : 0 < b - a := sub_pos.mpr hab
+  set w := (y - a) / (b - a) with hw
+  have hw0 : 0 < w := div_pos (sub_pos.mpr hy0) hba
+  have hw1 : w < 1 := by rw [hw, div_lt_one hba]; linarith
+  have hθ0 : 0 < Real.pi / 2 * u := by positivity
+  have hθ1 : Real.pi / 2 * u < Real.pi / 2 := by nlinarith [Real.pi_pos]
+  have hs := Real.sin_pos_of_pos_of_lt_pi hθ0 (by linarith [Real.pi_pos])
+  have hsq0 : 0 ≤ Real.sqrt w := Real.sqrt_nonneg w
+  have hsq1 : Real.sqrt w ≤ 1 := by
+    rw [show (1:ℝ) = Real.sqrt 1 by simp]; exact Real.sqrt_le_sqrt (le_of_lt hw1)
+  have step1 : (b - a) * Real.sin (Real.pi / 2 * u) ^ 2 + a ≤ y ↔ Real.sin (Real.pi / 2 * u) ^ 2 ≤ w := by
+    rw [hw, le_div_iff₀ hba]
+    constructor <;> intro hh <;> linarith
+  rw [step1, ← Real.le_sqrt' hs,
+    ← Real.le_arcsin_iff_sin_le ⟨by linarith, le_of_lt hθ1⟩ ⟨by linarith, hsq1⟩]
+  have hpi : 0 < Real.pi := Real.pi_pos
+  constructor
+  · intro hh
+    rw [div_mul_eq_mul_div, le_div_iff₀ hpi]; linarith
+  · intro hh
+    rw [div_mul_eq_mul_div, le_div_iff₀ hpi] at hh; linarith
+
+theorem arcsinCdf_mem_Ioo {a b y : ℝ} (hab : a < b) (hy0 : a < y) (hy1 : y < b) :
+    0 < 2 / Real.pi * Real.arcsin (Real.sqrt ((y - a) / (b - a))) ∧
+      2 / Real.pi * Real.arcsin (Real.sqrt ((y - a) / (b - a))) < 1 := by
+  have hba : 0 < b - a := sub_pos.mpr hab
+  have hw0 : 0 < (y - a) / (b - a) := div_pos (sub_pos.mpr hy0) hba
+  have hw1 : (y - a) / (b - a) < 1 := by rw [div_lt_one hba]; linarith
+  have h0 : 0 < Real.arcsin (Real.sqrt ((y - a) / (b - a))) := Real.arcsin_pos.mpr (Real.sqrt_pos.mpr hw0)
+  have h1 : Real.arcsin (Real.sqrt ((y - a) / (b - a))) < Real.pi / 2 := by
+    rw [Real.arcsin_lt_pi_div_two, show (1:ℝ) = Real.sqrt 1 by simp]
+    exact Real.sqrt_lt_sqrt (le_of_lt hw0) hw1
+  have hpi : 0 < Real.pi := Real.pi_pos
+  constructor
+  · positivity
+  · rw [div_mul_eq_mul_div, div_lt_one hpi]; linarith
+
+/-- the signed cube root the code builds from two masked `** (1/3)` -/
+noncomputable def scbrt (t : ℝ) : ℝ :=
+  if 0 < t then t ^ ((1:ℝ) / 3) else if t < 0 then -((-t) ^ ((1:ℝ) / 3)) else 0
+
+theorem rpow_third_cube {t : ℝ} (ht : 0 ≤ t) : (t ^ ((1:ℝ) / 3)) ^ 3 = t := by
+  rw [← Real.rpow_natCast, ← Real.rpow_mul ht]
+  norm_num
+
+theorem scbrt_cube (t : ℝ) : scbrt t ^ 3 = t := by
+  unfold scbrt
+  split_ifs with h1 h2
+  · exact rpow_third_cube (le_of_lt h1)
+  · have := rpow_third_cube (t := -t) (by linarith)
+    calc (-((-t) ^ ((1:ℝ) / 3))) ^ 3 = -(((-t) ^ ((1:ℝ) / 3)) ^ 3) := by ring
+      _ = t := by rw [this]; ring
+  · have : t = 0 := le_antisymm (not_lt.mp h1) (not_lt.mp h2)
+    simp [this]
+
+theorem cube_le_cube {x y : ℝ} : x ^ 3 ≤ y ^ 3 ↔ x ≤ y :=
+  (Odd.strictMono_pow (by decide : Odd 3)).le_iff_le
+
+theorem cube_lt_cube {x y : ℝ} : x ^ 3 < y ^ 3 ↔ x < y :=
+  (Odd.strictMono_pow (by decide : Odd 3)).lt_iff_lt
+
+theorem uniformToUquad_eq (a b u : ℝ) :
+    uniformToUquad a b u = scbrt (3 * u / (12 / (b - a) ^ 3) + (a - b) ^ 3 / 8) + (a + b) / 2 := by
+  simp only [uniformToUquad, scbrt, npow_real, rpow_real]
+  push_cast
+  rfl
+
+theorem uniformToUquad_le_iff {a b u y : ℝ} (hab : a < b) :
+    uniformToUquad a b u ≤ y ↔ u ≤ 4 * (y - (a + b) / 2) ^ 3 / (b - a) ^ 3 + 1 / 2 := by
+  rw [uniformToUquad_eq]
+  have hba : 0 < b - a := sub_pos.mpr hab
+  have h3 : 0 < (b - a) ^ 3 := pow_pos hba 3
+  have e : 3 * u / (12 / (b - a) ^ 3) + (a - b) ^ 3 / 8 = (b - a) ^ 3 * (u / 4 - 1 / 8) := by
+    field_simp; ring
+  rw [e]
+  have step : scbrt ((b - a) ^ 3 * (u / 4 - 1 / 8)) + (a + b) / 2 ≤ y ↔
+      (b - a) ^ 3 * (u / 4 - 1 / 8) ≤ (y - (a + b) / 2) ^ 3 := by
+    rw [← scbrt_cube ((b - a) ^ 3 * (u / 4 - 1 / 8)), cube_le_cube, scbrt_cube]
+    constructor <;> intro hh <;> linarith
+  rw [step, div_add' _ _ _ (ne_of_gt h3), le_div_iff₀ h3]
+  constructor <;> intro hh <;> nlinarith
+
+theorem uquadCdf_mem_Ioo {a b y : ℝ} (hab : a < b) (hy0 : a < y) (hy1 : y < b) :
+    0 < 4 * (y - (a + b) / 2) ^ 3 / (b - a) ^ 3 + 1 / 2 ∧ 4 * (y - (a + b) / 2) ^ 3 / (b - a) ^ 3 + 1 / 2 < 1 := by
+  have hba : 0 < b - a := sub_pos.mpr hab
+  have h3 : 0 < (b - a) ^ 3 := pow_pos hba 3
+  have lo : (-(b - a) / 2) ^ 3 < (y - (a + b) / 2) ^ 3 := cube_lt_cube.mpr (by linarith)
+  have hi : (y - (a + b) / 2) ^ 3 < ((b - a) / 2) ^ 3 := cube_lt_cube.mpr (by linarith)
+  constructor
+  · rw [div_add' _ _ _ (ne_of_gt h3)]
+    apply div_pos _ h3
+    nlinarith
+  · rw [div_add' _ _ _ (ne_of_gt h3), div_lt_one h3]
+    nlinarith
+
+
+
+/-! ### the abstract standard normal cdf -/
+
+/-- What the theorems use about the standard normal cdf `Φ` and its quantile function `Q`:
+    `Φ` is a strictly increasing map `ℝ → (0,1)`, onto (`Φ (Q p) = p` on `(0,1)`), and symmetric. -/
+structure IsStdNormalCdf (Φ Q : ℝ → ℝ) : Prop where
+  strictMono : StrictMono Φ
+  pos : ∀ x, 0 < Φ x
+  lt_one : ∀ x, Φ x < 1
+  right_inv : ∀ p, 0 < p → p < 1 → Φ (Q p) = p
+  symm : ∀ x, Φ (-x) = 1 - Φ x
+
+namespace IsStdNormalCdf
+variable {Φ Q : ℝ → ℝ} (h : IsStdNormalCdf Φ Q)
+include h
+
+theorem left_inv (x : ℝ) : Q (Φ x) = x :=
+  h.strictMono.injective (h.right_inv _ (h.pos x) (h.lt_one x))
+
+theorem le_iff_le_Q {x p : ℝ} (hp0 : 0 < p) (hp1 : p < 1) : Φ x ≤ p ↔ x ≤ Q p := by
+  rw [← h.strictMono.le_iff_le (a := x) (b := Q p), h.right_inv p hp0 hp1]
+
+theorem lt_iff_lt_Q {x p : ℝ} (hp0 : 0 < p) (hp1 : p < 1) : Φ x < p ↔ x < Q p := by
+  rw [← h.strictMono.lt_iff_lt (a := x) (b := Q p), h.right_inv p hp0 hp1]
+
+theorem Q_le_iff {x p : ℝ} (hp0 : 0 < p) (hp1 : p < 1) : Q p ≤ x ↔ p ≤ Φ x := by
+  rw [← h.strictMono.le_iff_le (a := Q p) (b := x), h.right_inv p hp0 hp1]
+
+theorem Q_lt_Q {p q : ℝ} (hp0 : 0 < p) (hpq : p < q) (hq1 : q < 1) : Q p < Q q := by
+  rw [← h.strictMono.lt_iff_lt, h.right_inv p hp0 (hpq.trans hq1), h.right_inv q (hp0.trans hpq) hq1]
+  exact hpq
+
+theorem at_zero : Φ 0 = 1 / 2 := by
+  have := h.symm 0
+  simp only [neg_zero] at this
+  linarith
+
+theorem Q_half : Q (1 / 2) = 0 := by rw [← h.at_zero, h.left_inv]
+
+theorem half_lt_of_pos {x : ℝ} (hx : 0 < x) : 1 / 2 < Φ x := by
+  rw [← h.at_zero]; exact h.strictMono hx
+
+end IsStdNormalCdf
+
+/-- the hypotheses are satisfiable: the logistic cdf `1/(1+e^{-x})` with quantile `log(p/(1-p))` -/
+theorem logistic_isStdNormalCdf :
+    IsStdNormalCdf (fun x => 1 / (1 + Real.exp (-x))) (fun p => Real.log (p / (1 - p))) where
+  strictMono := by
+    intro x y hxy
+    have hx : 0 < 1 + Real.exp (-x) := by positivity
+    have hy : 0 < 1 + Real.exp (-y) := by positivity
+    simp only
+    rw [div_lt_div_iff₀ hx hy]
+    have : Real.exp (-y) < Real.exp (-x) := Real.exp_lt_exp.mpr (by linarith)
+    linarith
+  pos := fun x => by positivity
+  lt_one := fun x => by
+    have hx : 0 < Real.exp (-x) := Real.exp_pos _
+    rw [div_lt_one (by positivity)]; linarith
+  right_inv := by
+    intro p hp0 hp1
+    have h1 : 0 < 1 - p := by linarith
+    have ht : 0 < p / (1 - p) := div_pos hp0 h1
+    rw [Real.exp_neg, Real.exp_log ht]
+    field_simp
+    ring
+  symm := by
+    intro x
+    simp only [neg_neg]
+    have hx : 0 < Real.exp x := Real.exp_pos _
+    rw [Real.exp_neg]
+    field_simp
+    ring
+
+/-! ### normal marginals and push-forward cdfs -/
+
+variable {Ω : Type*} [MeasurableSpace Ω]
+
+/-- `X` has the normal marginal with mean `m` and standard deviation `s` (relative to the cdf `Φ`):
+    `P(X ≤ x) = Φ((x - m)/s)` for all `x` -/
+def NormalMarginal (P : Measure Ω) (X : Ω → ℝ) (Φ : ℝ → ℝ) (m s : ℝ) : Prop :=
+  ∀ x, P.real {ω | X ω ≤ x} = Φ ((x - m) / s)
+
+variable {P : Measure Ω} {X : Ω → ℝ} {Φ Q : ℝ → ℝ} {m s : ℝ}
+
+/-- the probability integral transform: `Φ((X - m)/s)` is uniform on `(0,1)` -/
+theorem prob_cdf_le (h : IsStdNormalCdf Φ Q) (hX : NormalMarginal P X Φ m s) (hs : 0 < s)
+    {p : ℝ} (hp0 : 0 < p) (hp1 : p < 1) : P.real {ω | Φ ((X ω - m) / s) ≤ p} = p := by
+  have hset : {ω | Φ ((X ω - m) / s) ≤ p} = {ω | X ω ≤ m + s * Q p} := by
+    ext ω
+    simp only [Set.mem_ofPred_eq]
+    rw [h.le_iff_le_Q hp0 hp1, div_le_iff₀ hs]
+    constructor <;> intro hh <;> linarith
+  rw [hset, hX]
+  have : (m + s * Q p - m) / s = Q p := by field_simp; ring
+  rw [this, h.right_inv p hp0 hp1]
+
+/-- **push-forward lemma**: if `g` (a quantile function evaluated at `u = Φ(z)`) and `F` satisfy `g u ≤ y ↔ u ≤ F y`
+    on `u ∈ (0,1)` (or `y` is below / above the whole range of `g`), then `P(g(Φ((X-m)/s)) ≤ y) = F y` -/
+theorem pushforward_cdf (h : IsStdNormalCdf Φ Q) [IsProbabilityMeasure P] (hX : NormalMarginal P X Φ m s)
+    (hs : 0 < s) (g : ℝ → ℝ) (Fy y : ℝ)
+    (hcase : ((∀ u, 0 < u → u < 1 → y < g u) ∧ Fy = 0) ∨ ((∀ u, 0 < u → u < 1 → g u ≤ y) ∧ Fy = 1) ∨
+      (0 < Fy ∧ Fy < 1 ∧ ∀ u, 0 < u → u < 1 → (g u ≤ y ↔ u ≤ Fy))) :
+    P.real {ω | g (Φ ((X ω - m) / s)) ≤ y} = Fy := by
+  rcases hcase with ⟨hlt, rfl⟩ | ⟨hle, rfl⟩ | ⟨h0, h1, hiff⟩
+  · have : {ω | g (Φ ((X ω - m) / s)) ≤ y} = ∅ := by
+      ext ω
+      simp only [Set.mem_ofPred_eq, Set.mem_empty_iff_false, iff_false, not_le]
+      exact hlt _ (h.pos _) (h.lt_one _)
+    rw [this]; simp
+  · have : {ω | g (Φ ((X ω - m) / s)) ≤ y} = Set.univ := by
+      ext ω
+      simp only [Set.mem_ofPred_eq, Set.mem_univ, iff_true]
+      exact hle _ (h.pos _) (h.lt_one _)
+    rw [this]; simp
+  · have : {ω | g (Φ ((X ω - m) / s)) ≤ y} = {ω | Φ ((X ω - m) / s) ≤ Fy} := by
+      ext ω
+      simp only [Set.mem_ofPred_eq]
+      exact hiff _ (h.pos _) (h.lt_one _)
+    rw [this, prob_cdf_le h hX hs h0 h1]
+
+
+
+variable {Ω : Type*} [MeasurableSpace Ω] {P : Measure Ω} {X : Ω → ℝ} {Φ Q : ℝ → ℝ} {m s : ℝ}
+
+theorem measurableSet_le_const (hm : Measurable X) (c : ℝ) : MeasurableSet {ω | X ω ≤ c} :=
+  measurableSet_le hm measurable_const
+
+/-- half-open interval probabilities of a normal marginal -/
+theorem prob_Ioc [IsFiniteMeasure P] (hX : NormalMarginal P X Φ m s) (hm : Measurable X) {a b : ℝ} (hab : a ≤ b) :
+    P.real {ω | a < X ω ∧ X ω ≤ b} = Φ ((b - m) / s) - Φ ((a - m) / s) := by
+  have hset : {ω | a < X ω ∧ X ω ≤ b} = {ω | X ω ≤ b} \ {ω | X ω ≤ a} := by
+    ext ω; simp only [Set.mem_ofPred_eq, Set.mem_sdiff, not_le]; tauto
+  have hsub : {ω | X ω ≤ a} ⊆ {ω | X ω ≤ b} := fun ω (h : X ω ≤ a) => le_trans h hab
+  have := measureReal_sdiff (μ := P) hsub (measurableSet_le_const hm a)
+  rw [hset, this, hX, hX]
+
+/-- a normal marginal (relative to a cdf that is onto `(0,1)`) has no atoms -/
+theorem no_atom (h : IsStdNormalCdf Φ Q) [IsFiniteMeasure P] (hX : NormalMarginal P X Φ m s) (hm : Measurable X)
+    (hs : 0 < s) (c : ℝ) : P.real {ω | X ω = c} = 0 := by
+  by_contra hne
+  have hδ : 0 < P.real {ω | X ω = c} := lt_of_le_of_ne measureReal_nonneg (Ne.symm hne)
+  set δ := P.real {ω | X ω = c} with hδdef
+  set zc := (c - m) / s with hzc
+  -- for every ε > 0 the atom sits inside (c - ε, c]
+  have key : ∀ ε, 0 < ε → δ ≤ Φ zc - Φ ((c - ε - m) / s) := by
+    intro ε hε
+    have hsub : {ω | X ω = c} ⊆ {ω | c - ε < X ω ∧ X ω ≤ c} := by
+      intro ω hω
+      simp only [Set.mem_ofPred_eq] at hω ⊢
+      rw [hω]; constructor <;> linarith
+    have := measureReal_mono (μ := P) hsub
+    rw [prob_Ioc hX hm (by linarith : c - ε ≤ c)] at this
+    exact this
+  have k1 := key s hs
+  have e1 : (c - s - m) / s = zc - 1 := by rw [hzc]; field_simp; ring
+  rw [e1] at k1
+  have hp0 : 0 < Φ zc - δ / 2 := by linarith [h.pos (zc - 1)]
+  have hp1 : Φ zc - δ / 2 < 1 := by linarith [h.lt_one zc]
+  have hq := h.right_inv _ hp0 hp1
+  set q := Q (Φ zc - δ / 2) with hqdef
+  rcases lt_or_ge q zc with hlt | hge
+  · have k2 := key (s * (zc - q)) (mul_pos hs (sub_pos.mpr hlt))
+    have e2 : (c - s * (zc - q) - m) / s = q := by rw [hzc]; field_simp; ring
+    rw [e2, hq] at k2
+    linarith
+  · have := h.strictMono.monotone hge
+    rw [hq] at this
+    linarith
+
+/-- strict inequalities have the same probability -/
+theorem prob_lt (h : IsStdNormalCdf Φ Q) [IsFiniteMeasure P] (hX : NormalMarginal P X Φ m s) (hm : Measurable X)
+    (hs : 0 < s) (c : ℝ) : P.real {ω | X ω < c} = Φ ((c - m) / s) := by
+  have hset : {ω | X ω < c} = {ω | X ω ≤ c} \ {ω | X ω = c} := by
+    ext ω; simp only [Set.mem_ofPred_eq, Set.mem_sdiff]
+    constructor
+    · intro hh; exact ⟨le_of_lt hh, ne_of_lt hh⟩
+    · rintro ⟨h1, h2⟩; exact lt_of_le_of_ne h1 h2
+  have := measureReal_sdiff_null (μ := P) (s₁ := {ω | X ω ≤ c}) (no_atom h hX hm hs c)
+  rw [hset, this, hX]
+
+/-- the standardised variable has the standard normal marginal -/
+theorem NormalMarginal.standardize (hX : NormalMarginal P X Φ m s) (hs : 0 < s) :
+    NormalMarginal P (fun ω => (X ω - m) / s) Φ 0 1 := by
+  intro z
+  have hset : {ω | (X ω - m) / s ≤ z} = {ω | X ω ≤ m + s * z} := by
+    ext ω; simp only [Set.mem_ofPred_eq]; rw [div_le_iff₀ hs]
+    constructor <;> intro hh <;> linarith
+  rw [hset, hX]
+  congr 1; field_simp; ring
+
+/-- `P(|Z| ≤ r) = 2Φ(r) − 1` for a standard normal marginal -/
+theorem prob_abs_le (h : IsStdNormalCdf Φ Q) [IsFiniteMeasure P] {Z : Ω → ℝ} (hZ : NormalMarginal P Z Φ 0 1)
+    (hm : Measurable Z) {r : ℝ} (hr : 0 ≤ r) : P.real {ω | |Z ω| ≤ r} = 2 * Φ r - 1 := by
+  have hset : {ω | |Z ω| ≤ r} = {ω | Z ω ≤ r} \ {ω | Z ω < -r} := by
+    ext ω; simp only [Set.mem_ofPred_eq, Set.mem_sdiff, not_lt, abs_le]; tauto
+  have hsub : {ω | Z ω < -r} ⊆ {ω | Z ω ≤ r} := fun ω (hω : Z ω < -r) => by
+    simp only [Set.mem_ofPred_eq]; linarith
+  have := measureReal_sdiff (μ := P) hsub (measurableSet_lt hm measurable_const)
+  rw [hset, this, hZ, prob_lt h hZ hm one_pos]
+  simp only [sub_zero, div_one]
+  rw [h.symm]; ring
+
+/-- `P(|Z| < r) = 2Φ(r) − 1` -/
+theorem prob_abs_lt (h : IsStdNormalCdf Φ Q) [IsFiniteMeasure P] {Z : Ω → ℝ} (hZ : NormalMarginal P Z Φ 0 1)
+    (hm : Measurable Z) {r : ℝ} (hr : 0 < r) : P.real {ω | |Z ω| < r} = 2 * Φ r - 1 := by
+  have hset : {ω | |Z ω| < r} = {ω | Z ω < r} \ {ω | Z ω ≤ -r} := by
+    ext ω; simp only [Set.mem_ofPred_eq, Set.mem_sdiff, not_le, abs_lt]; tauto
+  have hsub : {ω | Z ω ≤ -r} ⊆ {ω | Z ω < r} := by
+    intro ω (hω : Z ω ≤ -r)
+    simp only [Set.mem_ofPred_eq]; linarith
+  have := measureReal_sdiff (μ := P) hsub (measurableSet_le_const hm (-r))
+  rw [hset, this, hZ, prob_lt h hZ hm one_pos]
+  simp only [sub_zero, div_one]
+  rw [h.symm]; ring
+
+/-! ### Zinn–Harvey -/
+
+theorem zhCore_eq (z : ℝ) : zhCore Φ Q z = Q (2 * Φ |z| - 1) := by
+  simp only [zhCore, fabs_real]; push_cast; rfl
+
+/-- for `z ≠ 0`: `Φ⁻¹(2Φ(|z|) − 1) ≤ w ↔ |z| ≤ Φ⁻¹((1 + Φ w)/2)` -/
+theorem zhCore_le_iff (h : IsStdNormalCdf Φ Q) {z : ℝ} (hz : z ≠ 0) (w : ℝ) :
+    zhCore Φ Q z ≤ w ↔ |z| ≤ Q ((1 + Φ w) / 2) := by
+  rw [zhCore_eq]
+  have ha : 0 < |z| := abs_pos.mpr hz
+  have h1 := h.half_lt_of_pos ha
+  have h2 := h.lt_one |z|
+  have hw0 := h.pos w
+  have hw1 := h.lt_one w
+  rw [h.Q_le_iff (by linarith) (by linarith), ← h.le_iff_le_Q (by linarith) (by linarith)]
+  constructor <;> intro hh <;> linarith
+
+/-- for `z ≠ 0`: `−Φ⁻¹(2Φ(|z|) − 1) ≤ w ↔ Φ⁻¹((1 + Φ(−w))/2) ≤ |z|` -/
+theorem neg_zhCore_le_iff (h : IsStdNormalCdf Φ Q) {z : ℝ} (hz : z ≠ 0) (w : ℝ) :
+    -zhCore Φ Q z ≤ w ↔ Q ((1 + Φ (-w)) / 2) ≤ |z| := by
+  rw [zhCore_eq]
+  have ha : 0 < |z| := abs_pos.mpr hz
+  have h1 := h.half_lt_of_pos ha
+  have h2 := h.lt_one |z|
+  have hw0 := h.pos (-w)
+  have hw1 := h.lt_one (-w)
+  rw [neg_le, ← h.strictMono.le_iff_le, h.right_inv _ (by linarith) (by linarith),
+    h.Q_le_iff (by linarith) (by linarith)]
+  constructor <;> intro hh <;> linarith
+
+/-- strictly larger `|z|` gives a strictly larger `Φ⁻¹(2Φ(|z|) − 1)`: the order of the absolute deviations is kept
+    (`conn = "low"`) or reversed (`conn = "high"`, after the sign flip) -/
+theorem zhCore_strictMono_abs (h : IsStdNormalCdf Φ Q) {z₁ z₂ : ℝ} (hz : z₁ ≠ 0) (h12 : |z₁| < |z₂|) :
+    zhCore Φ Q z₁ < zhCore Φ Q z₂ := by
+  rw [zhCore_eq, zhCore_eq]
+  have ha : 0 < |z₁| := abs_pos.mpr hz
+  have h1 := h.half_lt_of_pos ha
+  have h2 := h.lt_one |z₂|
+  have := h.strictMono h12
+  exact h.Q_lt_Q (by linarith) (by linarith) (by linarith)
+
+/-- `P(Φ⁻¹(2Φ(|Z|) − 1) ≤ w) = Φ(w)` for a standard normal marginal `Z` -/
+theorem prob_zhCore_le (h : IsStdNormalCdf Φ Q) [IsProbabilityMeasure P] {Z : Ω → ℝ}
+    (hZ : NormalMarginal P Z Φ 0 1) (hm : Measurable Z) (w : ℝ) :
+    P.real {ω | zhCore Φ Q (Z ω) ≤ w} = Φ w := by
+  have hw0 := h.pos w
+  have hw1 := h.lt_one w
+  set r := Q ((1 + Φ w) / 2) with hr
+  have hΦr : Φ r = (1 + Φ w) / 2 := h.right_inv _ (by linarith) (by linarith)
+  have hrpos : 0 < r := by
+    rw [← h.strictMono.lt_iff_lt, hΦr, h.at_zero]; linarith
+  have hN : P.real {ω | Z ω = 0} = 0 := no_atom h hZ hm one_pos 0
+  have hA : P.real {ω | |Z ω| ≤ r} = Φ w := by
+    rw [prob_abs_le h hZ hm (le_of_lt hrpos), hΦr]; ring
+  have hup : {ω | zhCore Φ Q (Z ω) ≤ w} ⊆ {ω | |Z ω| ≤ r} := by
+    intro ω hω
+    simp only [Set.mem_ofPred_eq] at hω ⊢
+    by_cases hz : Z ω = 0
+    · rw [hz, abs_zero]; exact le_of_lt hrpos
+    · exact (zhCore_le_iff h hz w).mp hω
+  have hlo : {ω | |Z ω| ≤ r} \ {ω | Z ω = 0} ⊆ {ω | zhCore Φ Q (Z ω) ≤ w} := by
+    rintro ω ⟨h1, h2⟩
+    exact (zhCore_le_iff h h2 w).mpr h1
+  have e1 := measureReal_sdiff_null (μ := P) (s₁ := {ω | |Z ω| ≤ r}) hN
+  have l1 := measureReal_mono (μ := P) hlo
+  have l2 := measureReal_mono (μ := P) hup
+  rw [e1] at l1
+  linarith
+
+/-- `P(−Φ⁻¹(2Φ(|Z|) − 1) ≤ w) = Φ(w)` -/
+theorem prob_neg_zhCore_le (h : IsStdNormalCdf Φ Q) [IsProbabilityMeasure P] {Z : Ω → ℝ}
+    (hZ : NormalMarginal P Z Φ 0 1) (hm : Measurable Z) (w : ℝ) :
+    P.real {ω | -zhCore Φ Q (Z ω) ≤ w} = Φ w := by
+  have hw0 := h.pos (-w)
+  have hw1 := h.lt_one (-w)
+  set r := Q ((1 + Φ (-w)) / 2) with hr
+  have hΦr : Φ r = (1 + Φ (-w)) / 2 := h.right_inv _ (by linarith) (by linarith)
+  have hrpos : 0 < r := by
+    rw [← h.strictMono.lt_iff_lt, hΦr, h.at_zero]; linarith
+  have hN : P.real {ω | Z ω = 0} = 0 := no_atom h hZ hm one_pos 0
+  have hmeas : MeasurableSet {ω | |Z ω| < r} :=
+    measurableSet_lt (continuous_abs.measurable.comp hm) measurable_const
+  have hB : P.real {ω | |Z ω| < r}ᶜ = Φ w := by
+    rw [measureReal_compl hmeas, probReal_univ, prob_abs_lt h hZ hm hrpos, hΦr, h.symm]; ring
+  have hlo : {ω | |Z ω| < r}ᶜ ⊆ {ω | -zhCore Φ Q (Z ω) ≤ w} := by
+    intro ω hω
+    simp only [Set.mem_compl_iff, Set.mem_ofPred_eq, not_lt] at hω ⊢
+    have hz : Z ω ≠ 0 := by
+      intro h0; rw [h0, abs_zero] at hω; linarith
+    exact (neg_zhCore_le_iff h hz w).mpr hω
+  have hup : {ω | -zhCore Φ Q (Z ω) ≤ w} ⊆ {ω | |Z ω| < r}ᶜ ∪ {ω | Z ω = 0} := by
+    intro ω hω
+    simp only [Set.mem_ofPred_eq, Set.mem_union, Set.mem_compl_iff, not_lt] at hω ⊢
+    by_cases hz : Z ω = 0
+    · right; exact hz
+    · left; exact (neg_zhCore_le_iff h hz w).mp hω
+  have l1 := measureReal_mono (μ := P) hlo
+  have l2 := measureReal_mono (μ := P) hup
+  have l3 := measureReal_union_le (μ := P) {ω | |Z ω| < r}ᶜ {ω | Z ω = 0}
+  rw [hB] at l1
+  rw [hB, hN] at l3
+  linarith
 
 
 end GSV.Lemmas.Transform
